@@ -204,9 +204,14 @@ impl Ctx {
     }
     /// A failure matching a listed known finding is counted and tolerated; otherwise it is a violation.
     pub fn known_finding(&mut self, sig: &str, what: &str) -> CaseResult {
-        if crate::kf::listed(self.prop, sig) {
+        let p = self.prop;
+        self.known_finding_as(p, sig, what)
+    }
+    /// same, for an oracle that runs on behalf of a fixed property (shared fuzz targets)
+    pub fn known_finding_as(&mut self, prop: &str, sig: &str, what: &str) -> CaseResult {
+        if crate::kf::listed(prop, sig) {
             if !self.frozen {
-                *self.known.entry(format!("property={} sig={} {}", self.prop, sig, crate::kf::describe(self.prop, sig))).or_insert(0) += 1;
+                *self.known.entry(format!("property={} sig={} {}", prop, sig, crate::kf::describe(prop, sig))).or_insert(0) += 1;
             }
             let _ = what;
             Ok(())
